@@ -397,3 +397,25 @@ CASES += [
                         compl: false,
                     };"""),
 ]
+
+CASES += [
+    dict(name="D8-false-result-wrapped", file=DN, rule="RN", props=["C06"], expect="compile_cnf_topdown:RN4",
+         old="""        if r.is_false() {
+            return BddPtr::false_ptr();
+        }
+
+        // conjoin in any initially implied literals""",
+         new="""        // conjoin in any initially implied literals"""),
+]
+
+CASES += [
+    dict(name="D9-composition-without-init-vars", file="src/repr/dtree.rs", rule="DTR", props=["C14"], expect="from_cnf:DTR1",
+         old="""        res.init_vars();
+        res.gen_cutset(&VarSet::new());""",
+         new="""        res.gen_cutset(&VarSet::new());"""),
+    dict(name="dtr-cutset-ignores-ancestors", file="src/repr/dtree.rs", rule="DTR", props=["C14"], expect="gen_cutset:DTR3",
+         old="""                let my_cutset = intersect.minus(ancestor_cutset);
+                let new_ancestor_cutset = ancestor_cutset.union(&my_cutset);""",
+         new="""                let my_cutset = intersect.minus(ancestor_cutset);
+                let new_ancestor_cutset = my_cutset.clone();"""),
+]
